@@ -32,6 +32,12 @@ const PARAMS = {
   asyncArrow: (T) => `async (props: ${T}) => () => null`,
   withCtx: (T) => `(props: ${T}, { emit }: SetupContext<(e: 'x') => void>) => () => null`,
 };
+// declarations of one merged interface cannot be split across scopes (the inner one would shadow, not merge)
+function declsSplittable(map, path) {
+  const enc = R.encode(map.map((i) => R.ENTRY_MENU[i]), path);
+  const names = enc.decls.map((d) => /^(?:export )?(?:interface|type) (\w+)/.exec(d)[1]);
+  return enc.decls.length >= 2 && new Set(names).size === names.length;
+}
 function render(c) {
   if (c.sp === 'U') {
     const u = UNRESOLVABLE[c.u];
@@ -57,6 +63,12 @@ function render(c) {
     const body = c.pos === 'before' ? `${inner.join('\n  ')}\n  return ${call};` : `const r = ${call};\n  ${inner.join('\n  ')}\n  return r;`;
     const fn = c.scope === 'shadowArrow' ? `const make = () => {\n  ${body}\n};` : c.scope === 'shadowFnExpr' ? `const make = function () {\n  ${body}\n};` : `function make() {\n  ${body}\n}`;
     return `${R.PRELUDE}${uniq.join('\n')}\n${fn}\nexport const C = make();\n`;
+  }
+  if (c.scope === 'mixedLast') {
+    // the last declaration (the one the annotation names, when there are several) lives in a function body, what it refers to at module level
+    const k = Math.max(enc.decls.length - 1, 0);
+    const outer = enc.decls.slice(0, k), inner = enc.decls.slice(k).map((d) => d.replace(/^export /, ''));
+    return `${R.PRELUDE}${outer.join('\n')}\nfunction make() {\n  ${inner.join('\n  ')}\n  return ${call};\n}\nexport const C = make();\n`;
   }
   const decls = enc.decls.join('\n');
   if (c.scope === 'twice') return `${R.PRELUDE}${decls}\nexport const C0 = ${call};\nexport const C = ${call};\n`;
@@ -116,12 +128,13 @@ function spaces(tier) {
   return [
     {
       name: 'P:maps×encodings',
-      bounds: { entry_menu: R.ENTRY_MENU.map(R.memberSrc), max_entries: thorough ? 4 : 3, operators: R.ENC_KEYS, operator_depth: thorough ? 3 : 2, positions: ['before', 'after'], scopes: ['module', 'shadow (function declaration)', 'shadow in arrow', 'shadow in function expression', 'shadowing chain through outer types', 'two components using the same declarations'], parameter_forms: Object.keys(PARAMS) },
+      bounds: { entry_menu: R.ENTRY_MENU.map(R.memberSrc), max_entries: thorough ? 4 : 3, operators: R.ENC_KEYS, operator_depth: thorough ? 3 : 2, positions: ['before', 'after'], scopes: ['module', 'shadow (function declaration)', 'shadow in arrow', 'shadow in function expression', 'shadowing chain through outer types', 'two components using the same declarations', 'last declaration in a function body, the others at module level'], parameter_forms: Object.keys(PARAMS) },
       *gen() {
         for (const map of allMaps) for (const path of paths(1)) for (const pos of ['before', 'after']) for (const scope of ['module', 'shadow', 'shadowArrow', 'shadowFnExpr']) yield { sp: 'P', map, path, pos, scope };
         for (const map of allMaps) yield { sp: 'P', map, path: [], pos: 'before', scope: 'shadowChain' };
         for (const param of Object.keys(PARAMS)) if (param !== 'ident') for (const map of allMaps) for (const path of [[], ['iface'], ['alias']]) yield { sp: 'P', map, path, pos: 'before', scope: 'module', param };
         for (const map of allMaps) for (const path of paths(1)) yield { sp: 'P', map, path, pos: 'before', scope: 'twice' };
+        for (const map of allMaps.filter((m) => m.length <= 2).concat(coreMaps.filter((m) => m.length === 3))) for (const path of paths(2)) if (path.length >= 1 && declsSplittable(map, path)) yield { sp: 'P', map, path, pos: 'before', scope: 'mixedLast' };
         for (const map of (thorough ? allMaps : allMaps.filter((m) => m.length <= 2).concat(coreMaps.filter((m) => m.length === 3)))) for (const path of paths(thorough ? 3 : 2)) if (path.length >= 2) for (const pos of (thorough ? ['before', 'after'] : ['before'])) {
           if (thorough && path.length === 3 && map.length !== 2) continue;
           yield { sp: 'P', map, path, pos, scope: 'module' };
